@@ -158,7 +158,8 @@ PROBES = [
     "apply_on_unfiltered", "apply_on_prefiltered", "apply_on_prejoined_used_rel",
     "apply_on_prejoined_other_rel", "apply_on_ordered", "apply_on_annotated",
     "apply_on_shorthand_result", "apply_on_manager", "apply_with_navigation",
-    "apply_with_lambda", "apply_with_two_step_lambda_owner", "apply_with_function", "older_query_rerun_after_later_apply",
+    "apply_with_lambda", "apply_with_two_step_lambda_owner", "apply_with_many_to_many_lambda",
+    "apply_with_function", "older_query_rerun_after_later_apply",
     "apply_after_apply_fail_same_base", "apply_fail_after_joins_recorded",
     "cache_hit", "cache_miss", "cache_eviction", "same_shape_different_literals",
     "style_sa_select", "style_sa_legacy", "style_sa_core", "style_dj_qs",
@@ -380,10 +381,12 @@ def execute(plan, pristine, deep=False):
                                 T.TO_ONE[o][r][1] == T.TO_ONE[j["owner"]][j["rel"]][1]
                                 for o, r in need):
                             probes["apply_navigates_other_rel_to_aliased_target"] += 1
-                if T.uses(t, "coll") or T.uses(t, "coll2"):
+                if T.uses(t, "coll") or T.uses(t, "coll2") or T.uses(t, "m2m"):
                     probes["apply_with_lambda"] += 1
                 if T.uses(t, "coll2"):
                     probes["apply_with_two_step_lambda_owner"] += 1
+                if T.uses(t, "m2m"):
+                    probes["apply_with_many_to_many_lambda"] += 1
                 if T.uses(t, "fn"):
                     probes["apply_with_function"] += 1
                 if base.qid in failed_on:
@@ -801,6 +804,8 @@ def gen_plan(seed, run, finding_shapes=True):
                 cand = last_template[1]
                 same = [x for x in same
                         if not any(pth[0] in x.aliased for pth in T.nav_paths(cand))]
+                if T.uses(cand, "m2m") or T.uses(cand, "coll2"):
+                    same = [x for x in same if x.style.startswith("dj")]
                 if same and (not T.uses(cand, "ann")):
                     g2 = rng.choice(same)
                     newp = set()
@@ -828,7 +833,7 @@ def gen_plan(seed, run, finding_shapes=True):
                     t = None
                 if t and T.uses(t, "coll") and core:
                     t = None
-                if t and T.uses(t, "coll2") and not dj:
+                if t and (T.uses(t, "coll2") or T.uses(t, "m2m")) and not dj:
                     t = None
                 if t and any(pth[0] in g.aliased for pth in T.nav_paths(t)):
                     t = None
@@ -1278,15 +1283,18 @@ SYSTEMATIC_DOC = (
     "literals, run everything.")
 
 SYS_DATA = {
+    "PostEditors": [[1, 1], [1, 2], [3, 2], [4, 3]],
+    "Label": [{"id": 1, "name": "ann"}, {"id": 2, "name": "bob"}],
+    "Kind": [{"id": 1, "name": "bob"}, {"id": 2, "name": "ann"}],
     "Author": [{"id": 1, "name": "ann"}, {"id": 2, "name": "bob"}, {"id": 3, "name": "ann"}],
-    "Post": [{"id": 1, "title": "alpha", "rating": 5, "author_id": 1},
-             {"id": 2, "title": "beta", "rating": 2, "author_id": None},
-             {"id": 3, "title": "alpha", "rating": 3, "author_id": 2},
-             {"id": 4, "title": "gamma", "rating": 0, "author_id": 1}],
-    "Comment": [{"id": 1, "body": "nice", "post_id": 1, "writer_id": 2, "co_writer_id": 1},
-                {"id": 2, "body": "cool", "post_id": 3, "writer_id": None, "co_writer_id": 2},
-                {"id": 3, "body": "nice", "post_id": 1, "writer_id": 1, "co_writer_id": None},
-                {"id": 4, "body": "meh", "post_id": 2, "writer_id": 3, "co_writer_id": 1}],
+    "Post": [{"id": 1, "title": "alpha", "rating": 5, "author_id": 1, "tag_id": 1},
+             {"id": 2, "title": "beta", "rating": 2, "author_id": None, "tag_id": 2},
+             {"id": 3, "title": "alpha", "rating": 3, "author_id": 2, "tag_id": None},
+             {"id": 4, "title": "gamma", "rating": 0, "author_id": 1, "tag_id": 1}],
+    "Comment": [{"id": 1, "body": "nice", "post_id": 1, "writer_id": 2, "co_writer_id": 1, "tag_id": 1},
+                {"id": 2, "body": "cool", "post_id": 3, "writer_id": None, "co_writer_id": 2, "tag_id": 2},
+                {"id": 3, "body": "nice", "post_id": 1, "writer_id": 1, "co_writer_id": None, "tag_id": 1},
+                {"id": 4, "body": "meh", "post_id": 2, "writer_id": 3, "co_writer_id": 1, "tag_id": None}],
 }
 SYS_STYLES = ["sa_select", "sa_select_aliased", "sa_legacy", "sa_legacy_aliased", "sa_core",
               "sa_core_cols",
@@ -1297,7 +1305,8 @@ SYS_SHAPES = ["plain", "where", "order", "join_rel", "join_outer", "join_target_
               "join_joinedload", "join_other", "join_aliased_other", "join_two_used_first",
               "join_two_used_last",
               "annotated", "distinct", "chained", "limited", "where_many"]
-SYS_FILTERS = ["scalar", "fn", "nav1", "nav_post", "nav2", "any", "all", "any0", "any2"]
+SYS_FILTERS = ["scalar", "fn", "nav1", "nav_post", "nav2", "nav_same_key", "any", "all", "any0",
+               "any2", "m2m_back"]
 
 
 def _sys_template(kind, root, variant):
@@ -1314,6 +1323,12 @@ def _sys_template(kind, root, variant):
         if rel is None:
             return None
         return {"k": "nav", "path": [rel], "f": "name", "op": "eq", "v": ["ann", "bob"][v]}
+    if kind == "nav_same_key":
+        # Comment.tag (-> kind) and Post.tag (-> label): one key, two models, one filter
+        if root != "Comment":
+            return None
+        return {"k": "and", "a": {"k": "nav", "path": ["tag"], "f": "name", "op": "eq", "v": ["bob", "ann"][v]},
+                "b": {"k": "nav", "path": ["post", "tag"], "f": "name", "op": "eq", "v": ["ann", "bob"][v]}}
     if kind == "nav_post":
         if root != "Comment":
             return None
@@ -1322,6 +1337,11 @@ def _sys_template(kind, root, variant):
         if root != "Comment":
             return None
         return {"k": "nav", "path": ["post", "author"], "f": "name", "op": "eq", "v": ["ann", "bob"][v]}
+    if kind == "m2m_back":
+        # co-editors: posts I edit that have an editor called ...
+        if root != "Author":
+            return None
+        return {"k": "m2m", "rel": "edited", "back": "editors", "f": "name", "v": ["bob", "ann"][v]}
     if kind == "any2":
         if root != "Author":
             return None
@@ -1346,11 +1366,12 @@ def _sys_history(style, root, shape, fkind):
     t2 = _sys_template(fkind, root, 1)
     if t is None:
         return None
-    if core and fkind in ("nav1", "nav_post", "nav2", "any", "all", "any0", "any2"):
+    if core and fkind in ("nav1", "nav_post", "nav2", "nav_same_key", "any", "all", "any0",
+                          "any2", "m2m_back"):
         return None
     if dj and fkind == "all":
         return None
-    if not dj and fkind == "any2":
+    if not dj and fkind in ("any2", "m2m_back"):
         return None      # the ORM backend joins the to-many owner path: row multiplicity
     ops = []
     n = [0]
@@ -1379,7 +1400,7 @@ def _sys_history(style, root, shape, fkind):
         base = add({"op": "order", "base": base, "o": {"f": f, "dir": "desc"}})
     elif shape.startswith("join_two"):
         # two host joins; the filter navigates the one joined first / last
-        if root != "Comment" or dj or core or fkind == "nav2":
+        if root != "Comment" or dj or core or fkind in ("nav2", "nav_same_key"):
             return None
         seq = ["writer", "post"] if shape.endswith("first") else ["post", "writer"]
         for rel in seq:
@@ -1393,7 +1414,7 @@ def _sys_history(style, root, shape, fkind):
         if shape == "join_aliased_other":
             # the host joins Comment.co_writer through its own alias of Author; the
             # filter navigates the other relationship to that entity (writer)
-            if root != "Comment" or core or dj or fkind == "nav2":
+            if root != "Comment" or core or dj or fkind in ("nav2", "nav_same_key"):
                 return None
             rel, form = "co_writer", "aliased_rel"
         elif shape == "join_other":
@@ -1403,6 +1424,8 @@ def _sys_history(style, root, shape, fkind):
         else:
             rel = rel1
         if rel is None:
+            return None
+        if fkind == "nav_same_key" and shape != "join_other":
             return None
         if fkind == "nav2" and rel == "writer" and form != "aliased_rel":
             return None      # two join paths to one table: input-level limitation (6.1)
